@@ -241,8 +241,9 @@ struct Value {
 
     Value &operator=(const Value &val) {
         if (this != &val) {
-            reset();
-            copyValue(val);
+            // Copy first: val may live inside this value (v = v["key"]).
+            Value tmp{val};
+            *this = Memory::Move(tmp);
         }
 
         return *this;
